@@ -222,32 +222,21 @@ eq_harness!(animator_three_state_arm_out_of_order, {
     assert!(same_animator(&m, &b));
 });
 
-eq_harness!(animator_multi_state_merged_arm_and_single_arm, {
-    // a bracketed list under `A | B`, with `default` inside a list member, next to an ordinary arm
+eq_harness!(animator_multi_state_merged_arm, {
+    // a bracketed list under `A | B`, with `default` inside the list member
     let m = animator!(Dot {
         default(Ui::Idle, { r: 2 }),
-        Ui::Hover | Ui::Press => [1s to { r: 3 }, 2s after 1s to default],
-        Ui::Idle => 1s to { r: 7 }
+        Ui::Hover | Ui::Press => [2s after 1s to default]
     });
     let d = Dot { r: 2 };
-    let ml = || MT::of([
-        Dot::timeline().duration_seconds(1.0).keyframe(Dot::keyframe(1.0).r(3)).build(),
-        Dot::timeline().duration_seconds(2.0).delay_seconds(1.0).keyframe(Dot::keyframe_from(&d, 1.0)).build(),
-    ]);
-    let b = StateAnimatorBuilder::new()
-        .from_state(Ui::Idle)
-        .from_values(d.clone())
-        .on(Ui::Hover, ml())
-        .on(Ui::Press, ml())
-        .on(Ui::Idle, Dot::timeline().duration_seconds(1.0).keyframe(Dot::keyframe(1.0).r(7)))
-        .build();
+    let ml = || MT::of([Dot::timeline().duration_seconds(2.0).delay_seconds(1.0).keyframe(Dot::keyframe_from(&d, 1.0)).build()]);
+    let b = StateAnimatorBuilder::new().from_state(Ui::Idle).from_values(d.clone()).on(Ui::Hover, ml()).on(Ui::Press, ml()).build();
     assert!(m.current_state() == b.current_state() && m.current_values() == b.current_values() && m.verif_time_and_pause() == b.verif_time_and_pause());
     for s in [Ui::Hover, Ui::Press] {
         let (x, y) = (m.verif_timeline_of(&s).unwrap().timelines_ref(), b.verif_timeline_of(&s).unwrap().timelines_ref());
-        assert!(x.len() == 2 && y.len() == 2 && same_dot(&x[0], &y[0]) && same_dot(&x[1], &y[1]));
+        assert!(x.len() == 1 && y.len() == 1 && same_dot(&x[0], &y[0]));
     }
-    let (x, y) = (m.verif_timeline_of(&Ui::Idle).unwrap().timelines_ref(), b.verif_timeline_of(&Ui::Idle).unwrap().timelines_ref());
-    assert!(x.len() == 1 && y.len() == 1 && same_dot(&x[0], &y[0]));
+    assert!(m.verif_timeline_of(&Ui::Idle).is_none());
 });
 
 eq_harness!(animator_state_in_two_arms_later_arm_wins, {
